@@ -44,6 +44,9 @@ fn eval(vm: &mut Vm) -> Result<VCell, Error> {
 
     let expr = vm.pop()?;
     let expr = vm.heap.get_as_cell(&expr);
+    if !expr.is_datum() {
+        return Err(InvalidSyntax(format!("{:#}", expr)));
+    }
 
     let mut lambda = Lambda::new(vec![]);
     lambda.set_top_level();
